@@ -73,6 +73,7 @@ type syncScen struct {
 	Explicit bool   // explicit asset list (otherwise taken from the target)
 	Kind     string // memory | filesystem
 	Cal      int    // calendar of the snapshot dates: 0 = UTC midnights of March 2021; 1 / 2 = local midnights in America/New_York where day 1 is the 23-hour / 25-hour day of 2024; 3 = year 2300; 4 = new year 1902
+	Repeat   bool   // the explicit list names every asset twice (A B A B): two watch lists concatenated
 }
 
 var nyLoc = func() *time.Location {
@@ -112,6 +113,9 @@ func (s syncScen) String() string {
 	cal := ""
 	if s.Cal != 0 {
 		cal = ", " + map[int]string{1: "local-midnight dates across the 23-hour day", 2: "local-midnight dates across the 25-hour day", 3: "dates in the year 2300", 4: "dates around new year 1902"}[s.Cal]
+	}
+	if s.Repeat {
+		cal += ", every name listed twice"
 	}
 	return fmt.Sprintf("%s target, workers=%d, explicit=%v, assets=[%s]%s", s.Kind, s.Workers, s.Explicit, strings.Join(p, " "), cal)
 }
@@ -200,6 +204,9 @@ func syncScenario(s syncScen) explore.Scenario {
 				sy.Workers, sy.Delay, sy.Logger = s.Workers, 0, quietLogger
 				if s.Explicit {
 					sy.Assets = append([]string{}, names...)
+					if s.Repeat {
+						sy.Assets = append(sy.Assets, names...)
+					}
 				}
 				return sy.Run(source, target, calDay(s.Cal, syncDefaultStart))
 			}
@@ -274,7 +281,7 @@ func syncScens(tier string) []syncScen {
 		for _, ex := range []bool{true, false} {
 			for _, a := range per {
 				for _, w := range []int{1, 2} {
-					out = append(out, syncScen{[]syncAsset{a}, w, ex, k, 0})
+					out = append(out, syncScen{[]syncAsset{a}, w, ex, k, 0, false})
 				}
 			}
 			for _, a := range per {
@@ -287,7 +294,7 @@ func syncScens(tier string) []syncScen {
 						if !thorough && k == "filesystem" && !ex && w > 1 {
 							continue
 						}
-						out = append(out, syncScen{[]syncAsset{a, b}, w, ex, k, 0})
+						out = append(out, syncScen{[]syncAsset{a, b}, w, ex, k, 0, false})
 					}
 				}
 			}
@@ -301,17 +308,26 @@ func syncScens(tier string) []syncScen {
 				if a.Fault {
 					continue
 				}
-				out = append(out, syncScen{[]syncAsset{a}, 1, ex, "memory", cal})
-				out = append(out, syncScen{[]syncAsset{a, {2, true, false}}, 1, ex, "memory", cal})
+				out = append(out, syncScen{[]syncAsset{a}, 1, ex, "memory", cal, false})
+				out = append(out, syncScen{[]syncAsset{a, {2, true, false}}, 1, ex, "memory", cal, false})
 			}
+		}
+	}
+	// an explicit list that names an asset more than once: every occurrence starts from what the target holds by then
+	// (one worker: the occurrences are handled one after the other; two workers: they may be handled at the same time)
+	for _, k := range kinds {
+		for _, a := range per {
+			out = append(out, syncScen{Assets: []syncAsset{a}, Workers: 1, Explicit: true, Kind: k, Repeat: true})
+			out = append(out, syncScen{Assets: []syncAsset{a}, Workers: 2, Explicit: true, Kind: k, Repeat: true})
+			out = append(out, syncScen{Assets: []syncAsset{a, {1, true, false}}, Workers: 1, Explicit: true, Kind: k, Repeat: true})
 		}
 	}
 	// a zero-byte asset file in a file-system target (e.g. created to register a new asset)
 	for _, ex := range []bool{true, false} {
 		for _, w := range []int{1, 2} {
-			out = append(out, syncScen{[]syncAsset{{-1, true, false}}, w, ex, "filesystem", 0})
-			out = append(out, syncScen{[]syncAsset{{-1, true, false}, {1, true, false}}, w, ex, "filesystem", 0})
-			out = append(out, syncScen{[]syncAsset{{2, true, false}, {-1, true, false}}, w, ex, "filesystem", 0})
+			out = append(out, syncScen{[]syncAsset{{-1, true, false}}, w, ex, "filesystem", 0, false})
+			out = append(out, syncScen{[]syncAsset{{-1, true, false}, {1, true, false}}, w, ex, "filesystem", 0, false})
+			out = append(out, syncScen{[]syncAsset{{2, true, false}, {-1, true, false}}, w, ex, "filesystem", 0, false})
 		}
 	}
 	// three assets: representative situations per asset on the file-system target (and in memory in the thorough tier)
@@ -323,10 +339,10 @@ func syncScens(tier string) []syncScen {
 		for _, b := range rep {
 			for _, c := range rep {
 				// three workers on three assets have > 20000 traces: thorough tier only, under the execution cap
-				out = append(out, syncScen{[]syncAsset{a, b, c}, 2, true, "filesystem", 0})
+				out = append(out, syncScen{[]syncAsset{a, b, c}, 2, true, "filesystem", 0, false})
 				if thorough {
-					out = append(out, syncScen{[]syncAsset{a, b, c}, 3, true, "filesystem", 0})
-					out = append(out, syncScen{[]syncAsset{a, b, c}, 2, true, "memory", 0})
+					out = append(out, syncScen{[]syncAsset{a, b, c}, 3, true, "filesystem", 0, false})
+					out = append(out, syncScen{[]syncAsset{a, b, c}, 2, true, "memory", 0, false})
 				}
 			}
 		}
@@ -459,8 +475,8 @@ func DebugSync() {
 	pprof.StartCPUProfile(f)
 	defer pprof.StopCPUProfile()
 	for _, s := range []syncScen{
-		{[]syncAsset{{0, true, false}, {1, true, false}}, 2, true, "memory", 0},
-		{[]syncAsset{{0, true, false}, {1, true, false}, {2, true, false}}, 3, true, "filesystem", 0},
+		{[]syncAsset{{0, true, false}, {1, true, false}}, 2, true, "memory", 0, false},
+		{[]syncAsset{{0, true, false}, {1, true, false}, {2, true, false}}, 3, true, "filesystem", 0, false},
 	} {
 		t0 := time.Now()
 		st := explore.DPOR(syncScenario(s), explore.Opts{Races: true, MaxExec: 20000})
